@@ -695,7 +695,9 @@ def r6_reverse_changes_only_the_order(repo=None):
     bound_names = {x.id for x in ast.walk(outer.target) if isinstance(x, ast.Name)}
     for what, e, holder in exprs:
         st = stmt_of(holder)
-        loc = pysym.seq_env(outer.body, stop=st)
+        # the same expression is evaluated for reverse = False / True and only the two results are compared; dependence on the flag
+        # through branches is decided separately (definitions under `if reverse:` by mode, flag-taint of names set before the loop)
+        loc = pysym.seq_env(outer.body, stop=st, track=False)
         loc = {k: v for k, v in loc.items() if not k.startswith("__once_")}
         e2 = pysym.subst(e, loc)
         # names set before the loop whose value depends on the flag (e.g. the position of the earliest sub-directory in visiting
